@@ -307,6 +307,15 @@ BENIGN = [
      "        let dividend_bits = self.significant_bits();\n        let shift = dividend_bits - divisor.significant_bits();\n        let mut divisor: Bvd = divisor.try_into().expect(\"should never fail\");"),
 ]
 
+BENIGN += [
+    ("B11-reallocate-helper", "src/dynamic.rs",
+     "        if Self::capacity_from_bit_len(self.length) < self.data.len() {\n            // TODO: in place reallocation\n            let mut new_data: Vec<u64> = repeat(0)\n                .take(Self::capacity_from_bit_len(self.length))\n                .collect();\n            for i in 0..new_data.len() {\n                new_data[i] = self.data[i];\n            }\n            self.data = new_data.into_boxed_slice();\n        }\n    }",
+     "        if Self::capacity_from_bit_len(self.length) < self.data.len() {\n            self.reallocate(self.length);\n        }\n    }\n\n    fn reallocate(&mut self, bit_capacity: usize) {\n        let live = Self::capacity_from_bit_len(self.length);\n        let mut new_data: Vec<u64> = repeat(0)\n            .take(Self::capacity_from_bit_len(bit_capacity))\n            .collect();\n        new_data[..live].copy_from_slice(&self.data[..live]);\n        self.data = new_data.into_boxed_slice();\n    }"),
+    ("B12-trimmed-clone", "src/dynamic.rs",
+     "#[derive(Clone, Debug)]\npub struct Bvd {\n    data: Box<[u64]>,\n    length: usize,\n}",
+     "#[derive(Debug)]\npub struct Bvd {\n    data: Box<[u64]>,\n    length: usize,\n}\n\nimpl Clone for Bvd {\n    fn clone(&self) -> Self {\n        Bvd {\n            data: self.data[..Self::capacity_from_bit_len(self.length)].into(),\n            length: self.length,\n        }\n    }\n}"),
+]
+
 ALL_PIDS = ["C01", "C02", "C03", "C04", "C05", "C07", "C08", "C09", "C10", "C11", "C12", "C13", "C15", "C17", "C18", "C19", "C20"]
 
 
